@@ -45,17 +45,37 @@ def gen_extension(S, rnd):
         ob["interfaces"] = [it["name"]]
         ob["fields"] = [dict(it["fields"][0]), {"name": "xo1", "type": gs.N(rnd.choice(leaf)), "description": None, "deprecation": None, "args": g.args(input_types)}]
         new_types += [it, ob]
+    # an existing interface that implements the new interface through its extension - together with everything that
+    # implements it (an implementing type must implement the interfaces of its interfaces as well)
+    must = set()
+    ifaces = [t for t in S["types"] if t["kind"] == "INTERFACE"]
+    if new_types and new_types[0]["kind"] == "INTERFACE" and ifaces and rnd.random() < 0.6:
+        target = rnd.choice(ifaces)["name"]
+        must = {target}
+        grew = True
+        while grew:
+            grew = False
+            for t in S["types"]:
+                if t["kind"] in ("OBJECT", "INTERFACE") and t["name"] not in must and must & set(t["interfaces"]):
+                    must.add(t["name"])
+                    grew = True
+        if any(f["name"] == "xi0" for t in S["types"] if t["name"] in must for f in t["fields"]):
+            must = set()
     for t in S["types"]:
-        if rnd.random() > 0.5:
+        if rnd.random() > 0.5 and t["name"] not in must:
             continue
         e = blank_ext(t["name"])
         k = t["kind"]
+        if t["name"] in must:
+            e["interfaces"].append(new_types[0]["name"])
+            e["fields"].append(dict(new_types[0]["fields"][0]))
         if k in ("OBJECT", "INTERFACE"):
             for j in range(rnd.choice([1, 2])):
                 e["fields"].append({"name": f"x{t['name'].lower()}{j}", "type": g.wrap(gs.N(rnd.choice(leaf))), "description": g.text(0.2),
                                     "deprecation": g.reason(0.2), "args": g.args(input_types)})
             # implement the new interface as well (objects only; adding its field)
-            if k == "OBJECT" and new_types and rnd.random() < 0.4 and not any(f["name"] == "xi0" for f in t["fields"]):
+            if k == "OBJECT" and t["name"] not in must and new_types and new_types[0]["kind"] == "INTERFACE" and rnd.random() < 0.4 \
+                    and not any(f["name"] == "xi0" for f in t["fields"]):
                 e["interfaces"].append(new_types[0]["name"])
                 e["fields"].append(dict(new_types[0]["fields"][0]))
         elif k == "UNION":
